@@ -73,6 +73,25 @@ def check_dateinterval(ctx, case):
         V("or", (gen.day_of(u.start), gen.day_of(u.end)), (min(su), max(su)))
     u2 = A.union(B)
     if (u2 is None) != (u is None) or (u2 is not None and u2 != u): V("union-method", u2, u)
+    # results of | and & are intervals like any other: their length, iteration, truthiness and further unions follow the day-set model
+    for nm, r_, sr in (("or", u, su), ("and", i, si)):
+        if r_ is None or not sr or (nm == "or" and not contiguous): continue
+        ctx.count("derived_results")
+        if len(r_) != len(sr): V(f"{nm}-result-len", len(r_), len(sr))
+        if bool(r_) is not True: V(f"{nm}-result-falsy", bool(r_), True)
+        if len(sr) <= 60 and [gen.day_of(x) for x in r_] != sorted(sr): V(f"{nm}-result-iter", None, None)
+        fresh = DateInterval(r_.start, r_.end)
+        if r_ != fresh or hash(r_) != hash(fresh) or len(fresh) != len(r_): V(f"{nm}-result-vs-fresh", len(r_), len(fresh))
+        for gap in (1, 2):
+            c0 = max(sr) + gap; c1 = min(sr) - gap
+            if c0 + 2 <= hi:
+                C_ = DateInterval(D(c0), D(c0 + 2)); w = r_ | C_; w2 = C_ | r_
+                if (w is None) != (gap == 2) or (w2 is None) != (gap == 2) or (w is not None and (gen.day_of(w.start), gen.day_of(w.end), len(w)) != (min(sr), c0 + 2, c0 + 3 - min(sr))):
+                    V(f"{nm}-result-chained-union", w and (gen.day_of(w.start), gen.day_of(w.end), len(w)), (gap, min(sr), c0 + 2))
+            if c1 - 1 >= lo:
+                C_ = DateInterval(D(c1 - 1), D(c1)); w = r_ | C_
+                if (w is None) != (gap == 2) or (w is not None and (gen.day_of(w.start), gen.day_of(w.end), len(w)) != (c1 - 1, max(sr), max(sr) - c1 + 2)):
+                    V(f"{nm}-result-chained-union", w and (gen.day_of(w.start), gen.day_of(w.end), len(w)), (gap, c1 - 1, max(sr)))
     if (A == B) != (ssa == ssb): V("eq", A == B, ssa == ssb)
     if (A != B) != (ssa != ssb): V("ne", A != B, ssa != ssb)
     if A == B and hash(A) != hash(B): V("hash")
@@ -225,6 +244,14 @@ def run(ctx, shard):
             elif mode == 7: b = a + rng.randint(0, max(0, la)); lb = rng.randint(0, max(0, a + la - b))  # nested
             elif mode == 8: b, lb = a + la, rng.randint(0, 4)               # overlaps at one day
             else: b = a + rng.randint(-15, 15); lb = rng.randint(0, 12)
+            if n % 8 == 4 and n % 3 == 0:      # A (or B) ends on the calendar's last day / starts on its first
+                which = (n // 24) % 3
+                if which == 0: a = hi - la
+                elif which == 1: a = lo
+                else: a = hi - la - rng.randint(0, 3)
+                if mode == 4: b, lb = a, la
+                else:
+                    b = a + rng.randint(0, la); lb = rng.randint(0, a + la - b) if which != 2 else hi - b
             if b < lo or b + lb > hi or a + la > hi:
                 continue
             case = {"kind": "dateint", "cal": cid, "a": a, "la": la, "b": b, "lb": lb}
